@@ -1152,7 +1152,7 @@ def rxvec_case(case):
         V('utils.theory_BER:vectorisation', f'P_avg (7,1) broadcast against {pname} (1,{n}) gives {grid!r}, column-wise calls {cols!r}')
     obs += [fl(vec), fl(pair), fl(grid)]
 
-    return res(viol=viol, obs=tuple(obs), nontrivial=informative(list(vec) + list(pair)) and (pname, point),
+    return res(viol=viol, obs=tuple(obs), nontrivial=informative(np.concatenate([vec.ravel(), pair.ravel()])) and (pname, point),
                stats={'lib_calls': nlib, 'helper_vector_calls_rejected': nrej})
 
 
@@ -1230,7 +1230,7 @@ def forms_case(case):
             out = {}
             with np.errstate(all='ignore'):
                 for k_, f in calls(F, Mx).items():
-                    out[k_] = float(f())
+                    out[k_] = one_float(f())
             return out
         base = run(float, M); nlib += len(base)
         obs.append(tuple(v if v == v else 'nan' for v in base.values()))
@@ -1278,7 +1278,7 @@ def forms_case(case):
                ('optimum_threshold:ook', 'M omitted / None for ook', lambda: U.optimum_threshold(float(mu0), float(mu0 + d), fa * fa, fb * fb, 'ook', None))]
         with np.errstate(all='ignore'):
             for k_, what, f in chk:
-                _cmp_forms(V, k_, what, float(f()), base[k_], soft='soft' in k_); nlib += 1
+                _cmp_forms(V, k_, what, one_float(f()), base[k_], soft='soft' in k_); nlib += 1
             # ---- other spellings (not documented: either rejected or the same value)
             sp = [('ppm.theory_BER:hard', "decision='HARD'", lambda: ppm.theory_BER(fd, fa, fb, M, 'HARD')),
                   ('ppm.theory_BER:soft', "decision='Soft'", lambda: ppm.theory_BER(fd, fa, fb, M, 'Soft')),
@@ -1378,6 +1378,12 @@ def forms_case(case):
             V('receiver:spelling', f'{what} is accepted but gives {bad!r}; {want!r} with the documented spelling')
     return res(viol=viol, obs=tuple(obs), nontrivial=informative(base['theory_BER']) and case,
                stats={'lib_calls': nlib, 'undocumented_spellings_rejected': nrej})
+
+
+def one_float(x):
+    """the single number a scalar call returns (nan when the library returns something else)"""
+    a = np.asarray(x, dtype=float)
+    return float(a.ravel()[0]) if a.size == 1 else math.nan
 
 
 def freeze_arr(a):
